@@ -168,7 +168,7 @@ PROPS.update({
     "C19": mk("C19", [("pan", GB.case_panic, 1)], 900, 20000,
               proj_lines(("op ", "out ", "abort ", "done", "skipped", "fs ", "cl ", "bad-op")), OB.c19, [],
               proj_name="C19: outcomes of all sessions after an abort", known_match=known_if_model_agrees("K6", OB.c19)),
-    "C20": mk("C20", [("rol", GB.case_roles, 2), ("td", GB.case_td, 1), ("bu", GB.case_bu, 1)], 900, 20000,
+    "C20": mk("C20", [("rol", GB.case_roles, 2), ("td", GB.case_td, 1), ("bu", GB.case_bu, 1), ("bud", GB.case_bu_dense, 1), ("pan", GB.case_panic, 1)], 900, 20000,
               proj_lines(("op ", "out ", "abort ", "done", "skipped", "cl ", "bad-op")),
               lambda c, io: OB.c20(c, io) + ([f"well-formed program aborted: {l}" for l in io if l in ("abort overlap", "abort hidden", "abort cyclic")]
                                              if c.meta.get("stream") in ("td", "bu") else []), [],
